@@ -37,9 +37,9 @@ META = {
 }
 
 ACTIONS = ["FlipByte", "Truncate", "SpliceToken", "SetNumber", "SetHex", "NestDeep", "MakeCycle", "DropKeyword", "SwapEntry",
-           "RepeatToken", "PadTail", "InsertKey"]
-GUARDS = ["prev", "len", "bracket", "nest", "search", "window"]
-GUARD_ACTIONS = {"prev": ["StepPrevFirst", "StepPrevIter"], "len": ["StepLen"], "bracket": ["StepBracket"], "nest": ["StepNest"],
+           "RepeatToken", "PadTail", "InsertKey", "MakeChain", "DecoyKeyword"]
+GUARDS = ["prev", "len", "lendepth", "bracket", "nest", "search", "window"]
+GUARD_ACTIONS = {"prev": ["StepPrevFirst", "StepPrevIter"], "len": ["StepLen"], "lendepth": ["StepLen"], "bracket": ["StepBracket"], "nest": ["StepNest"],
                  "search": ["StepSearch"], "window": ["StepSearch"]}
 GROUP = {"load": "file", "incload": "file"}
 MIB = 1 << 20
@@ -255,8 +255,8 @@ def run(tier):
     # ---------------------------------------------------------------- cases
     cases, meta, seen = [], [], set()
 
-    def add(ep, data, d, m, reps=None):
-        key = hashlib.sha1(("%s|%s|%s|%s" % (ep, bytes(data).hex(), json.dumps(d, sort_keys=True), reps)).encode()).hexdigest()
+    def add(ep, data, d, m, reps=None, chain=None):
+        key = hashlib.sha1(("%s|%s|%s|%s|%s" % (ep, bytes(data).hex(), json.dumps(d, sort_keys=True), reps, chain)).encode()).hexdigest()
         if key in seen:
             return
         seen.add(key)
@@ -268,6 +268,12 @@ def run(tier):
             c["reps"] = reps
             c["stack_kb"] = 2048
             n += sum((r[3] - (r[1] - r[0] + 1) // max(r[2], 1)) * r[2] for r in reps)
+        if chain:
+            # the worker writes the chain with n objects where TLC wrote three (about 90 bytes each)
+            c["chain"] = chain
+            c["chain_check"] = bool(m.get("chain_last"))
+            c["stack_kb"] = 2048
+            n += chain[2] * 90
         c.update(limits(n))
         if m.get("use"):
             c["use"] = m["use"]
@@ -279,6 +285,7 @@ def run(tier):
         m = dict(m, key=key, group=GROUP.get(ep, ep), n=n)
         meta.append(m)
 
+    big_chains = collections.Counter()
     for ri, r in enumerate(records):
         src = "tlc:producer" if r["_mode"] == "producer" else "tlc:seed:" + r["tag"]
         base = {"src": src, "muts": r["muts"], "trivial": r["round"] == 0, "rdok": r["rdok"], "neutral": r["neutral"], "rec": ri, "rep": "",
@@ -286,15 +293,32 @@ def run(tier):
                 "wzero": (w_zero(r["dict"]) and count_huge(r["dict"])) or (r["ep"] == "file" and bool(W000.search(bytes(r["bytes"])))),
                 "nest": []}
         eps = ["load", "incload"] if r["ep"] == "file" else [r["ep"]]
+        decoys = [bytes(m["v"]).decode("latin-1") for m in r["muts"] if m["k"] == "DecoyKeyword" and m["a"] != "noop" and m["idx"] >= 2]
+        if decoys:
+            base["rep"] = "decoy." + re.sub(r"[^A-Za-z%]", "", decoys[0][:-1])
         for ep in eps:
             add(ep, r["bytes"], r["dict"], dict(base, dig=(r["ep"] == "file")))
-            if r.get("reps"):
+            if r.get("chains") and len(r["chains"]) == 1:
+                cm = [m for m in r["muts"] if m["k"] == "MakeChain" and m["a"] != "noop"]
+                ch = r["chains"][0]
+                if len(cm) == 1 and ch[1] == len(r["bytes"]):
+                    kind, n = cm[0]["a"], ch[2]
+                    # a chain of 10^5 objects is a 9 MB file that takes lopdf ~15 s when nothing goes wrong: a few per
+                    # kind are written out in full (load only), the others with 10^4 objects
+                    if n > 10000:
+                        big_chains[kind] += 1
+                        if ep != "load" or big_chains[kind] > (1 if quick else 5):
+                            n = 10000
+                    add(ep, r["bytes"], r["dict"],
+                        dict(base, rep=("chain." + kind) if n >= 100 else "", neutral=False, chain_last=r["muts"][-1]["k"] == "MakeChain"),
+                        reps=r.get("reps") or None, chain=[ch[0], ch[1], n, ch[3], ch[4], kind])
+            elif r.get("reps"):
                 # the repetition written out in full; named after the unit repeated most often (>= 10^4 times)
                 big = [(m["idx"], bytes(m["v"])) for m in r["muts"] if m["k"] in ("RepeatToken", "PadTail") and m["a"] != "noop" and m["idx"] >= 10000]
                 rep = ""
                 if big:
                     unit = max(big)[1]
-                    rep = re.sub(r"[^A-Za-z0-9%()<>\[\]]", "", unit.decode("latin-1")) or "x%02X" % unit[0]
+                    rep = "repeat." + (re.sub(r"[^A-Za-z0-9%()<>\[\]]", "", unit.decode("latin-1")) or "x%02X" % unit[0])
                 add(ep, r["bytes"], r["dict"], dict(base, rep=rep, neutral=False), reps=r["reps"])
             elif r["nests"]:
                 # the array / dictionary nesting with the greatest depth is what the classifier will name
@@ -314,7 +338,7 @@ def run(tier):
     for ri in order_r:
         r = records[ri]
         im = [m for m in r["muts"] if m["k"] == "InsertKey" and m["a"] != "noop"]
-        if len(im) != 1 or r.get("reps") or r.get("nests") or (im[0]["a"].startswith("bytes") and len(r.get("ins") or []) != 1):
+        if len(im) != 1 or r.get("reps") or r.get("nests") or r.get("chains") or (im[0]["a"].startswith("bytes") and len(r.get("ins") or []) != 1):
             continue
         k = (r["ep"], r["tag"], value_class(im[0]))
         if k not in strata:
@@ -489,7 +513,8 @@ def run(tier):
         chk.violation(v["sig"], {"entry_point": c["ep"], "outcome": o["kind"], "msg": o.get("msg", ""), "loc": o.get("loc", ""),
                                  "refused_allocation": o.get("refused", 0), "peak_live_bytes": o.get("peak", 0), "source": m["src"], "mutations": fmt_muts(m["muts"]),
                                  "amplified_x": m.get("amp", 1), "input_len": m["n"], "hex": c["hex"] if len(c["hex"]) <= 8192 else c["hex"][:8192] + "...",
-                                 "dict": c.get("dict") or [], "reps": c.get("reps") or [], "stack_kb": c.get("stack_kb", 8192),
+                                 "dict": c.get("dict") or [], "reps": c.get("reps") or [], "chain": c.get("chain") or [],
+                                 "stack_kb": c.get("stack_kb", 8192),
                                  "note": o.get("note", "")})
 
     # drift note (C02's subject): a mutation the StrictReader calls neutral should not change what lopdf loads
@@ -600,6 +625,8 @@ def replay(path):
     c.update(limits(d.get("input_len", len(d["hex"]) // 2)))
     if d.get("reps"):
         c["reps"], c["stack_kb"] = d["reps"], d.get("stack_kb", 2048)
+    if d.get("chain"):
+        c["chain"], c["stack_kb"] = d["chain"], d.get("stack_kb", 2048)
     cin, cout = os.path.join(w, "in.ndjson"), os.path.join(w, "out.ndjson")
     write_ndjson(cin, [c])
     run_bin("c04", ["run", "--in", cin, "--out", cout, "--jobs", 1])
